@@ -77,6 +77,16 @@ TRUSTED = [
     "plain LinearFilter is a TypeError), operator.truediv(a, c) -> ALV.C05.numTruediv (ZeroDivisionError at c = 0), "
     "sum(... for k, v in P.terms()) -> ALV.C05.sumTerms (fold of + from ZFilter([0])), tuple(OrderedDict(terms)) -> the "
     "sorted powers, hash(t) -> t; the two hand-written vocabulary definitions are lean/ALV/Model/C05Vocab.lean",
+    "translator T5, filter list classes (FilterList.__init__ / __eq__ / __ne__, CascadeFilter.numpoly / denpoly, ParallelFilter."
+    "_sum_filter / numpoly / denpoly): translated by SHAPE (a fixed statement skeleton per function; the conditions, comparison "
+    "operators, constants, indices, operator.<op>, the generator's item and the raised class are read from the source). TRUSTED: "
+    "the five vocabulary definitions of lean/ALV/Model/C05ListVocab.lean (filters[i] inside a test -> argTest, `filters = "
+    "filters[i]; self.extend(filters)` -> extendItem, self.extend(tuple) -> extendTuple, reduce without initial value over a "
+    "generator -> reduceGen (items computed one at a time, TypeError when empty), try / except AttributeError: raise "
+    "AttributeError -> reraiseAttribute), callable(x) / isinstance(x, Iterable) -> the model's Arg.callable / Arg.iterable, "
+    "type(x) == type(y) -> equality of the model's Kind, list.__eq__ / __ne__ -> FLs.eq / FLs.listNe (CPython list_richcompare, "
+    "modelled); the inputs of the polynomial properties (`self.callables` as the lazily computed polynomial pairs of the "
+    "parts, `self.is_linear()` as a Bool) are supplied by the hand-written model (FL.polys of each part, FLs.linear)",
     "hash: the model gives the tuple of sorted powers that LinearFilter.__hash__ hashes; CPython's hash() is trusted",
     "hand-written Lean model ALV/Model/C05List.lean of FilterList objects (constructor rule on callable/iterable "
     "arguments, metaclass dunders `cls(super().__add__(other))` incl. the wrapping by user subclasses, CPython's "
@@ -106,7 +116,9 @@ MANIFEST = {
     "technique": "TRANSLATOR T5 (harness/props/c05_tr.py reads audiolazy/lazy_filters.py with ast on every run and "
                  "regenerates lean/ALV/Gen/C05Src.lean: LinearFilter.__init__ / __eq__ / __ne__ / __hash__, ZFilterMeta."
                  "__unary__ / __rbinary__, ZFilter.__add__ / __sub__ / __mul__ / __truediv__ / __pow__ / __call__(ZFilter), z — "
-                 "one shallow Lean definition per method and argument kind; theorems src_*_is_model: each equals the model "
+                 "one shallow Lean definition per method and argument kind; FilterList.__init__ / __eq__ / __ne__, CascadeFilter."
+                 "numpoly / denpoly, ParallelFilter._sum_filter / numpoly / denpoly — the flat reduce of the source, proved equal to "
+                 "what the model's mutual recursion FL.polys computes for a node; theorems src_*_is_model: each equals the model "
                  "function, so all theorems below are about the regenerated code) + Lean 4 proof (ZFilter model interpreted into the fraction field of Mathlib's Laurent polynomial "
                  "ring K[T;T⁻¹] for the field laws / substitution / expression trees of any depth, and into K⟦X⟧ "
                  "via C04's A·Y = B·X with unit denominators for the signal laws) + differential tie on expression "
@@ -114,8 +126,8 @@ MANIFEST = {
                  "inductive FL/FLs with joint induction: call = composition/sum, numpoly/denpoly = one causal filter "
                  "denoting the product/sum at any depth), ==/!= matrices over mixed pools, operand spellings and "
                  "fractional-delay linearisation, in the exact Fraction regime",
-    "note": "104 theorems (26 of them src_*_is_model), no pending statement; not under the translator: filter list objects "
-            "(FilterList.__init__, CascadeFilter / ParallelFilter __call__ / numpoly / denpoly / _sum_filter), casts, float / "
+    "note": "113 theorems (35 of them src_*_is_model), no pending statement; not under the translator: FilterList.callables / "
+            "is_linear, CascadeFilter / ParallelFilter __call__, FilterListMeta.__binary__, casts, float / "
             "Fraction exponents, linearize — hand-written models tied by sampling; D2 (__ne__ is `num != and den !=`) and D12 (ParallelFilter.denpoly "
             "is the product while numpoly comes from the shortcut sum) are repaired in /repo; D22 (ParallelFilter.numpoly/"
             "denpoly run reduce(operator.add, self) on the raw elements: filter lists are concatenated, numbers stay "
